@@ -269,16 +269,44 @@ def run_siblings(case):
 CONTAINERS = [[1, "a"], [], [[1], {"z": [2]}], ["s"], {"k": 1}, {}, {"d": [0]}, [None, True]]
 
 
-def _mutated(v):
+def _inner(v):
+    """path expression suffix and kind of the first nested container of v (a literal-born container inside a container)"""
     if isinstance(v, list):
-        return v + ["m"]
-    d = dict(v)
+        for i, x in enumerate(v):
+            if isinstance(x, (list, dict)):
+                return "[%d]" % i, x
+    if isinstance(v, dict):
+        for k, x in v.items():
+            if isinstance(x, (list, dict)):
+                return '["%s"]' % k, x
+    return None, None
+
+
+def _mutated(v):
+    path, inner = _inner(v)
+    if isinstance(v, list):
+        out = [(_mut1(x) if x is inner and path else x) for x in v] + ["m"]
+        return out
+    d = {k: (_mut1(x) if x is inner and path else x) for k, x in v.items()}
     d["m"] = 1
     return d
 
 
+def _mut1(x):
+    if isinstance(x, list):
+        return x + ["n"]
+    d = dict(x)
+    d["n"] = 2
+    return d
+
+
 def _mut_stmt(name, v):
-    return '  ($%s.append("m"))\n' % name if isinstance(v, list) else '  ($%s.update({"m": 1}))\n' % name
+    out = '  ($%s.append("m"))\n' % name if isinstance(v, list) else '  ($%s.update({"m": 1}))\n' % name
+    path, inner = _inner(v)
+    if path:
+        # also a NESTED container of the literal is changed in place
+        out = ('  ($%s%s.append("n"))\n' % (name, path) if isinstance(inner, list) else '  ($%s%s.update({"n": 2}))\n' % (name, path)) + out
+    return out
 
 
 def run_mutate(case):
